@@ -39,6 +39,8 @@ if os.environ.get("PEST_DRIVER"):            # test hook: a driver binary other 
 
 THEOREMS = {
     "C10": [
+        "Pest.C10.front_roundtrip_text",
+        "Pest.C10.front_roundtrip_trivia",
         "Pest.C10.front_roundtrip",
         "Pest.C10.scan_roundtrip",
         "Pest.C10.parse_roundtrip",
@@ -52,6 +54,8 @@ THEOREMS = {
         "Pest.C10.den_paren_tag",
         "Pest.C10.den_bounds",
         "Pest.Front.scan_roundtrip",
+        "Pest.Front.scan_roundtrip_text",
+        "Pest.Front.scan_roundtrip_trivia",
         "Pest.Front.PRT.parseTokens_roundtrip",
         "Pest.Front.PRT.recOK",
     ],
